@@ -173,3 +173,126 @@ def _mk_api(nops, tiers, timeout, first=None):
 _mk_api(2, ("quick", "thorough"), 900)
 for _f in range(8):
     _mk_api(3, ("thorough",), 3400, first=_f)
+
+
+# --- a capture block that is left by an exception, followed by ordinary output and another capture ---------------------------
+class _Boom(Exception):
+    pass
+
+
+class _Exploding:
+    def __rich_console__(self, console, options):
+        yield Text("half")
+        raise _Boom()
+
+
+@symx("C15-capture-exception-then-continue", timeout=1500, kind="P",
+      functions=F_X + ["rich/console.py:Capture.__enter__", "rich/console.py:Capture.__exit__", "rich/console.py:Console.begin_capture",
+                       "rich/console.py:Console.end_capture", "rich/console.py:Console._exit_buffer"],
+      bounds="history [op A; capture block running op B that completes / whose body raises after B / whose renderable raises while "
+             "printing; op C; capture block running op D] with A, C from 6 and D from 3 print/rule operations, B from 16 operations, on "
+             "a recording terminal console (colour system None / truecolor): nothing reaches the file during either block, the "
+             "exception propagates, afterwards the file holds exactly what a twin console writes for [A, C], a completed first "
+             "capture returns the twin's output for B and the second capture returns the twin's output for D - nothing left over "
+             "from the block that failed (solver-enumerated, native)")
+def c15_capture_exc(e):
+    system = [None, "truecolor"][int(e.mk("system", 0, 1))]
+    small = [(0, 0), (0, 1), (1, 0), (1, 1), (3, 0), (3, 1)]
+    a = small[int(e.mk("opA", 0, 5))]
+    b = (int(e.mk("opB", 0, 7)), int(e.mk("argB", 0, 1)))
+    cc = small[int(e.mk("opC", 0, 5))]
+    d = small[int(e.mk("opD", 0, 2)) * 2]
+    mode = int(e.mk("first_block", 0, 2))      # 0 completes, 1 body raises, 2 renderable raises
+    norm = lambda t: re.sub(r"\x1b\]8;id=[^;]*;", "\x1b]8;id=N;", t)  # noqa: E731
+    c = mk_console(system, True)
+    _apply(c, *a)
+    before = c.file.getvalue()
+    raised = False
+    try:
+        with c.capture() as cap1:
+            _apply(c, *b)
+            if mode == 1:
+                raise _Boom()
+            if mode == 2:
+                c.print(_Exploding())
+            if c.file.getvalue() != before:
+                return False
+    except _Boom:
+        raised = True
+    if raised != (mode != 0) or c.file.getvalue() != before:
+        return False
+    _apply(c, *cc)
+    mid = c.file.getvalue()
+    with c.capture() as cap2:
+        _apply(c, *d)
+    if c.file.getvalue() != mid:
+        return False
+
+    def twin(*ops):
+        t = mk_console(system, True, record=False)
+        for op in ops:
+            _apply(t, *op)
+        return norm(t.file.getvalue())
+    if norm(mid) != twin(a, cc):
+        return False
+    if mode == 0 and norm(cap1.get()) != twin(b):
+        return False
+    return norm(cap2.get()) == twin(d)
+
+
+# --- the same styled text recorded repeatedly: the styled export must follow the record, not strings cached on Style objects ---
+from rich.color import Color  # noqa: E402
+from rich.style import Style  # noqa: E402
+
+_R_ATTR = [None, ("bold", True), ("bold", False), ("italic", True), ("dim", False)]
+_R_COL = [None, Color.parse("red"), Color.from_rgb(64, 80, 96)]
+
+
+def _r_style(e, p):
+    kw = {}
+    a = _R_ATTR[int(e.mk(p + "_attr", 0, len(_R_ATTR) - 1))]
+    if a:
+        kw[a[0]] = a[1]
+    link = "http://x/" + p if e.mkbool(p + "_link") else None
+    return Style(color=_R_COL[int(e.mk(p + "_fg", 0, 2))], bgcolor=_R_COL[int(e.mk(p + "_bg", 0, 2))], link=link, **kw)
+
+
+def _cell_key(style, ch, no_color=False):
+    def col(c):
+        if c is None or no_color:
+            return None
+        return ("std", c.number) if c.triplet is None else ("rgb",) + tuple(c.triplet)
+    return (ch, bool(style.bold), col(style.color), style.link)
+
+
+@symx("C15-styled-export-repeated", timeout=1500, kind="P", functions=F_X + ["rich/style.py:Style.__add__", "rich/style.py:Style.render"],
+      bounds="Text 'abcd' with style a on [0,4) and b on [1,3) (each: attribute from {none, bold on/off, italic on, dim off} x fg, bg "
+             "from {unset, standard, truecolor} x link) printed three times on a recording truecolor terminal console (NO_COLOR on or "
+             "off) with the same Style objects: after every print the file, the plain, HTML and styled exports agree and the styled "
+             "export decodes to the combined style per character (solver-enumerated, native)")
+def c15_styled_repeated(e):
+    a, b = _r_style(e, "a"), _r_style(e, "b")
+    no_color = bool(e.mkbool("no_color"))
+    text = Text("abcd")
+    text.stylize(a, 0, 4)
+    text.stylize(b, 1, 3)
+    ab = a + b
+    line = [_cell_key(a, "a"), _cell_key(ab, "b"), _cell_key(ab, "c"), _cell_key(a, "d")]
+    nl = ("\n", False, None, None)
+    c = mk_console("truecolor", True, no_color=no_color)
+    for rnd in range(3):
+        c.print(text)
+        want = (line + [nl]) * (rnd + 1)
+        styled = termmodel.sgr_decode(c.export_text(clear=False, styles=True))
+        got = [(ch, "bold" in at, fg, link) for ch, at, fg, bg, link in styled.cells]
+        if [g[:2] + g[3:] for g in got] != [w[:2] + w[3:] for w in want]:
+            return False
+        # the record keeps colours even under NO_COLOR (only the file drops them): compare colours when colour is on
+        if not no_color and got != want:
+            return False
+        filed = termmodel.sgr_decode(c.file.getvalue())
+        fgot = [(ch, "bold" in at, fg, link) for ch, at, fg, bg, link in filed.cells]
+        fwant = [(w[0], w[1], None if no_color else w[2], w[3]) for w in want]
+        if fgot != fwant:
+            return False
+    return exports_agree(c)
